@@ -26,6 +26,7 @@ EXPLANATION = (
     ' Also evaluated here: verdict discipline of Path.check/Exec.check (C02 R02.1) and fork-copy completeness (C20 R20.1): an `unsat` replayed from a sibling path suppresses a failing branch.'
     ' Round 4: pending conditions are activated before a delayed path-ending error is re-raised in SEVM.run (the failing branch of a symbolic assert keeps the negated relation pending).'
     ' Round 5: substitutions are learnt only from a whole asserted equality term == constant, no recursion into sub-terms (R13.9); solver-free unsat answers are sound (C02 R02.2).'
+    ' Round 7: every answer of mk_cond is one of the reviewed arms (operator on (v1, v2), empty and size-mismatch cases); a shortcut return for some operand representation is a violation (R13.2).'
 )
 ASSUMPTIONS = ["z3py operator semantics: < > <= >= on BitVecRef are signed; ULT/UGT/ULE/UGE unsigned", "Forge-std signatures (hash-verified)"]
 
